@@ -115,6 +115,11 @@ func roundServerCap(t vkit.TB, c Case) {
 			if have != "" {
 				g.Dec()
 				sm.CloseConnection(have)
+				if (i+k)%2 == 0 {
+					// the same id is closed a second time (routine: a sweep / kick / disconnect closes it, then
+					// the transport's read-loop cleanup closes it again)
+					sm.CloseConnection(have)
+				}
 				have = ""
 			}
 			var rd io.Reader = nopRW{}
@@ -190,6 +195,87 @@ type atomic32 struct {
 
 func (a *atomic32) Add(n int) { a.mu.Lock(); a.v += n; a.mu.Unlock() }
 func (a *atomic32) Load() int { a.mu.Lock(); defer a.mu.Unlock(); return a.v }
+
+// roundServerCapHistory: sequential history at the cap in which connection ids are closed more than once
+// (and ids that never existed are closed); afterwards connections are accepted until the first refusal.
+// Ground truth = the connections the server admitted and the harness has not closed.
+func roundServerCapHistory(t vkit.TB, c Case) {
+	sm, closeSM := newSM(c.Limit, 0)
+	defer closeSM()
+	const pfx = "C17/max-connections/CreateConnection/"
+	var live []string
+	for i := 0; i < c.Limit; i++ {
+		conn, err := sm.CreateConnection(nopRW{}, nopRW{})
+		if err != nil {
+			vkit.Violation(t, pfx+"refused-below-limit", err.Error(), c)
+			return
+		}
+		live = append(live, conn.ID)
+	}
+	var closedIDs []string
+	for _, op := range c.Ops { // op: 0 close a live one once, 1 close a live one twice, 2 close an already closed id again, 3 close an unknown id
+		switch {
+		case op <= 1 && len(live) > 0:
+			id := live[len(live)-1]
+			live = live[:len(live)-1]
+			sm.CloseConnection(id)
+			if op == 1 {
+				sm.CloseConnection(id)
+			}
+			closedIDs = append(closedIDs, id)
+		case op == 2 && len(closedIDs) > 0:
+			sm.CloseConnection(closedIDs[0])
+		case op == 3:
+			sm.CloseConnection("conn_never-existed")
+		}
+	}
+	admitted := 0
+	for i := 0; i < c.Limit+3; i++ {
+		conn, err := sm.CreateConnection(nopRW{}, nopRW{})
+		if err != nil {
+			break
+		}
+		live = append(live, conn.ID)
+		admitted++
+	}
+	total := sm.GetConnectionStats().TotalConnections
+	detail := fmt.Sprintf("MaxConnections=%d; filled to the cap, close history %v (0 once, 1 the same id twice, 2 an already closed id again, 3 an unknown id), then accepted until refusal: %d more admitted; the harness holds %d admitted, unclosed connections, TotalConnections=%d",
+		c.Limit, c.Ops, admitted, len(live), total)
+	switch {
+	case len(live) > c.Limit || total > c.Limit:
+		vkit.Violation(t, pfx+"over-admission-after-repeated-close", detail, c)
+	case len(live) < c.Limit:
+		vkit.Violation(t, pfx+"refused-below-limit-after-repeated-close", detail, c)
+	default:
+		vkit.Case(fmt.Sprintf("server-cap/limit=%d/close-history", c.Limit), true, fmt.Sprintf("caphist|%d|%v", c.Limit, c.Ops))
+	}
+}
+
+func TestServerCapCloseHistories(t *testing.T) {
+	// every close history of length <= 3 over the four close kinds, limits 1, 2, 5
+	n := 0
+	for _, lim := range []int{1, 2, 5} {
+		for length := 1; length <= 3; length++ {
+			total := 1
+			for i := 0; i < length; i++ {
+				total *= 4
+			}
+			for x := 0; x < total; x++ {
+				n++
+				if !vkit.Mine(n) {
+					continue
+				}
+				ops := make([]int, length)
+				for y, j := x, 0; j < length; j++ {
+					ops[j] = y % 4
+					y /= 4
+				}
+				roundServerCapHistory(t, Case{Kind: "server-cap", Mode: "close-history", Limit: lim, Ops: ops})
+			}
+		}
+	}
+	vkit.Exhaustive("server-cap close histories (length<=3, limits 1,2,5)", true)
+}
 
 func TestServerCap(t *testing.T) {
 	// deterministic boundary (every limit value, at and below the limit)
